@@ -52,6 +52,11 @@ func (c *HTTPResponder) writeStatusHeader(status int) {
 }
 
 func (c *HTTPResponder) Write(status int, body io.Reader) (written int64, err error) {
+	if _, sent := c.writer.Header()["Content-Type"]; !sent {
+		// Without a Content-Type net/http sniffs one from the first bytes of the body. The origin sent none,
+		// so none is delivered (as on a CONNECT tunnel): a nil entry switches the sniffing off.
+		c.writer.Header()["Content-Type"] = nil
+	}
 	c.writeStatusHeader(status)
 	return io.Copy(c.writer, body)
 }
